@@ -270,7 +270,8 @@ def check_batch(case, ctx):
                 ctx.require(ok, pre + 'assert-dependent-behaviour', f'spec {i} [{key}]: python gives {str(a)[:300]}, python {flag} gives {str(b)[:300]}', flag=flag, config=key, spec_index=i)
     ctx.nontrivial = len(items) >= 2
     if case.get('bin'):
-        check_bin_script(_unjsonable(items[0]['spec']), ctx)
+        for it in items[:3 if case.get('bin') == 'all' else 1]:
+            check_bin_script(_unjsonable(it['spec']), ctx)
 
 
 def check_bin_script(spec, ctx):
@@ -406,7 +407,7 @@ def close_lists(a, b):
             if x != y: return False
             continue
         if x == y or (isinstance(x, float) and isinstance(y, float) and math.isnan(x) and math.isnan(y)): continue
-        if not (math.isfinite(x) and math.isfinite(y)) or abs(x - y) > 1e-12 * (1 + abs(x)): return False
+        if not (math.isfinite(x) and math.isfinite(y)) or abs(x - y) > 1e-9 * (1 + abs(x)): return False      # (summation order may differ between interpreter modes)
     return True
 
 
@@ -460,6 +461,35 @@ def route(case, v):
     specs = case['specs']
     # spec_index counts admissible specs only; be conservative: require every spec of the batch that could be meant
     return 'D15-j_precompute' if any(d15_precondition(sp) for sp in specs) else None
+
+
+# ---- fixed cases run in every tier (shard 0): the command-line route in its three variants (-G / -G -o / -w -g -e -o) and a
+# grammar whose values are far from magnitude one (an absolute tolerance must not be applied as a relative one)
+_N2 = {'N0': 2}
+_SPEC_B = {'node_labels': {}, 'terminals': {'c': {'type': [], 'weights': 0.5}, 'd': {'type': [], 'weights': 0.25}}, 'nonterminals': {'S': []}, 'start': 'S',
+           'rules': [{'lhs': 'S', 'nodes': [], 'ext': [], 'edges': [{'label': 'S', 'att': []}, {'label': 'c', 'att': []}]},
+                     {'lhs': 'S', 'nodes': [], 'ext': [], 'edges': [{'label': 'd', 'att': []}]}]}
+_RULES_A = [{'lhs': 'S', 'nodes': ['N0'], 'ext': [], 'edges': [{'label': 'X', 'att': [0]}, {'label': 'b', 'att': [0]}]},
+            {'lhs': 'X', 'nodes': ['N0', 'N0'], 'ext': [0], 'edges': [{'label': 'a', 'att': [0, 1]}, {'label': 'X', 'att': [1]}]},
+            {'lhs': 'X', 'nodes': ['N0'], 'ext': [0], 'edges': [{'label': 'b', 'att': [0]}]}]
+_SPEC_A = {'node_labels': dict(_N2), 'terminals': {'a': {'type': ['N0', 'N0'], 'weights': [[0.2, 0.3], [0.1, 0.4]]}, 'b': {'type': ['N0'], 'weights': [1.0, 0.5]}},
+           'nonterminals': {'S': [], 'X': ['N0']}, 'start': 'S', 'rules': _RULES_A}
+_SPEC_C = {'node_labels': dict(_N2), 'terminals': {'a': {'type': ['N0', 'N0'], 'weights': [[0.2, 0.3], [0.1, 0.4]]}, 'b': {'type': ['N0'], 'weights': [1.0, 0.5]},
+                                                   'e': {'type': [], 'weights': 0.125}},
+           'nonterminals': {'S': [], 'X': ['N0']}, 'start': 'S', 'rules': _RULES_A + [{'lhs': 'S', 'nodes': [], 'ext': [], 'edges': [{'label': 'e', 'att': []}]}]}
+_SPEC_BIG = {'node_labels': {}, 'terminals': {'a': {'type': [], 'weights': 0.9}, 'b': {'type': [], 'weights': 1e8}}, 'nonterminals': {'S': []}, 'start': 'S',
+             'rules': [{'lhs': 'S', 'nodes': [], 'ext': [], 'edges': [{'label': 'S', 'att': []}, {'label': 'a', 'att': []}]},
+                       {'lhs': 'S', 'nodes': [], 'ext': [], 'edges': [{'label': 'b', 'att': []}]}]}
+FIXED_CASES = [{'kind': 'batch', 'specs': [_SPEC_B, _SPEC_A, _SPEC_C], 'bin': 'all'}, {'kind': 'single', 'spec': _SPEC_BIG}]
+
+
+def enumerate_cases(tier, shard, nshards):
+    for i, c in enumerate(FIXED_CASES):
+        if i % nshards == shard: yield c
+
+
+def exhaustive_note(tier):
+    return "fixed cases only (the command-line route in its three variants; a grammar with values of magnitude 1e9): not an exhaustive sub-space"
 
 
 CANONICAL_D15 = {'kind': 'single', 'spec': {
